@@ -251,6 +251,18 @@ type vc08Env struct {
 	resp     *dns.Msg
 	handled  int
 	writeErr error
+
+	// clone, when set, makes the handler write clone(resp) instead of resp.
+	clone func(m *dns.Msg) (c *dns.Msg)
+}
+
+// setDisposer installs d as the disposer of every server of e.
+func (e *vc08Env) setDisposer(d Disposer) {
+	e.plain.disposer = d
+	e.dot.disposer = d
+	e.doh.disposer = d
+	e.doq.disposer = d
+	e.dc.disposer = d
 }
 
 const vc08IdleTimeout = 30 * time.Second
@@ -259,7 +271,15 @@ func vc08NewEnv() (e *vc08Env) {
 	e = &vc08Env{mtr: &vc08Metrics{}}
 	h := HandlerFunc(func(ctx context.Context, rw ResponseWriter, req *dns.Msg) (err error) {
 		e.handled++
-		e.writeErr = rw.WriteMsg(ctx, req, e.resp)
+		resp := e.resp
+		if e.clone != nil {
+			// The sequence part: the handler answers from a stored message
+			// through the production cloner, as the caches do.
+			resp = e.clone(e.resp)
+			resp.Id = req.Id
+		}
+
+		e.writeErr = rw.WriteMsg(ctx, req, resp)
 
 		return e.writeErr
 	})
